@@ -129,7 +129,19 @@ main (void)
           if (!same (r[4], r[1])) VIOL ("xcrypt differs from crypt_r: %s vs %s", r[4] ? r[4] : "NULL", r[1] ? r[1] : "NULL");
           if (!same (x_r ? xr : 0, r[1])) VIOL ("xcrypt_r differs from crypt_r");
           if (!same (f_c ? fc : 0, r[1])) VIOL ("fcrypt differs from crypt: %s vs %s", f_c ? fc : "NULL", r[1] ? r[1] : "NULL");
-          printf ("C");
+          /* the released header encourages keeping the arguments in the object's own fields:
+             an old program that does so expects them to survive the call */
+          int kept = -1;
+          if (p && s && strlen (p) < sizeof cd->input && strlen (s) < sizeof cd->setting)
+            {
+              memset (cd, 0, sizeof *cd);
+              strcpy (cd->input, p);
+              strcpy (cd->setting, s);
+              char *io = crypt_r (cd->input, cd->setting, cd);
+              kept = !strcmp (cd->input, p) && !strcmp (cd->setting, s);
+              if (!same (io, r[1])) VIOL ("crypt_r with in-object arguments differs: %s vs %s", io ? io : "NULL", r[1] ? r[1] : "NULL");
+            }
+          printf ("C kept=%d", kept);
           show ("rn", r[0]); show ("r", r[1]); show ("old_r", r[2]); show ("old", r[3]); show ("x", r[4]);
           printf ("\n");
           free (p); free (s);
